@@ -405,6 +405,25 @@ func checkBuildCase(c buildCase, rec *Rec) error {
 	if err := checkAutomaton(d, accepted, probesFor(accepted, c.Probes)); err != nil {
 		return fmt.Errorf("Builder: %v", err)
 	}
+	// Initialise makes the builder ready for use again: a second build (the same words in reverse script order is not
+	// valid, so: the accepted words once more) must give the same automaton
+	if p := try(func() { b.Initialise() }); p != nil {
+		return fmt.Errorf("Initialise after Finish panicked: %v", p)
+	}
+	for i, w := range accepted {
+		var aerr error
+		arg := []byte(w)
+		if p := try(func() { aerr = b.Add(arg) }); p != nil || aerr != nil {
+			return fmt.Errorf("after Initialise, Add(%q) (word %d of the second build of %q) failed: %v %v", w, i, accepted, p, aerr)
+		}
+	}
+	var dAgain *dawg.Dawg
+	if p := try(func() { dAgain, err = b.Finish() }); p != nil || err != nil {
+		return fmt.Errorf("second Finish after Initialise failed: %v %v", p, err)
+	}
+	if err := checkAutomaton(dAgain, accepted, probesFor(accepted, c.Probes)); err != nil {
+		return fmt.Errorf("Builder reused through Initialise: %v", err)
+	}
 	// dawg.New on the clean list agrees
 	list := make([][]byte, len(accepted))
 	for i, w := range accepted {
@@ -636,15 +655,23 @@ func matchesSpec(s searcherSpec, w word) bool {
 }
 
 func buildSearchers(specs []searcherSpec) []dawg.Searcher {
+	r, _ := buildSearchersKeep(specs)
+	return r
+}
+
+// buildSearchersKeep also returns the byte slices handed to the constructors (the caller's pattern / rack).
+func buildSearchersKeep(specs []searcherSpec) ([]dawg.Searcher, [][]byte) {
 	r := make([]dawg.Searcher, len(specs))
+	args := make([][]byte, len(specs))
 	for i, s := range specs {
+		args[i] = []byte(s.Text)
 		if s.Kind == "pattern" {
-			r[i] = dawg.NewPatternSearcher([]byte(s.Text), s.Blank)
+			r[i] = dawg.NewPatternSearcher(args[i], s.Blank)
 		} else {
-			r[i] = dawg.NewAnagramSearcher([]byte(s.Text), s.Blank)
+			r[i] = dawg.NewAnagramSearcher(args[i], s.Blank)
 		}
 	}
-	return r
+	return r, args
 }
 
 func buildDawg(words []word) (*dawg.Dawg, error) {
@@ -704,7 +731,12 @@ func checkSearchCase(c searchCase, rec *Rec) error {
 		return err
 	}
 	before := fmt.Sprint(d.VerifNodes())
-	srch := buildSearchers(c.Searchers)
+	srch, given := buildSearchersKeep(c.Searchers)
+	for i, sp := range c.Searchers {
+		if string(given[i]) != string(sp.Text) {
+			return fmt.Errorf("New%sSearcher modified the slice it was given: %q -> %q", sp.Kind, sp.Text, given[i])
+		}
+	}
 	want, nmatch := expectedSearch(c.Words, c.Searchers)
 	got, err := searchResult(d, srch)
 	if err != nil {
@@ -720,6 +752,11 @@ func checkSearchCase(c searchCase, rec *Rec) error {
 	}
 	if got2 != want {
 		return fmt.Errorf("repeating Search with the same searchers gives [%s], first time [%s] (searchers %+v, words %q)", got2, got, c.Searchers, c.Words)
+	}
+	for i, sp := range c.Searchers {
+		if string(given[i]) != string(sp.Text) {
+			return fmt.Errorf("Search modified the pattern/rack slice of searcher %d: %q -> %q", i, sp.Text, given[i])
+		}
 	}
 	if after := fmt.Sprint(d.VerifNodes()); after != before {
 		return fmt.Errorf("Search modified the Dawg")
@@ -934,7 +971,7 @@ func firstN(w []word, n int) []word {
 
 func init() {
 	RegisterRapid("C12_build",
-		"rapid: a script of Builder.Add calls made from a sorted duplicate-free word list (one case in twelve 100..400 (thorough 1200) hash-generated words over {a,b}/{a,b,c}; one in twelve words with shared suffixes of 30..70 letters; otherwise alphabets of 1..5 letters incl. bytes 0x00/0x80/0xff, or all 256 bytes; word lengths 0..7; nil and []byte{} for the empty word; words derived from earlier ones to share prefixes/suffixes) with out-of-order and duplicate words spliced in, then Finish. Checks: Add errors exactly for words not greater than the last accepted one; NumberOfWords; Lookup = (rank,true) on members and false on prefixes, extensions, one-byte mutations and random probes; via the verif hook the reachable node count equals the number of distinct residual languages (minimal DFA), per-node word counts, ascending labels, no equivalent nodes; dawg.New agrees, and dawg.New rejects the list with one duplicate / one transposition. Non-trivial: >= 3 words sharing a prefix and a suffix, or an accepted Add after a rejected one.",
+		"rapid: a script of Builder.Add calls made from a sorted duplicate-free word list (one case in twelve 100..400 (thorough 1200) hash-generated words over {a,b}/{a,b,c}; one in twelve words with shared suffixes of 30..70 letters; otherwise alphabets of 1..5 letters incl. bytes 0x00/0x80/0xff, or all 256 bytes; word lengths 0..7; nil and []byte{} for the empty word; words derived from earlier ones to share prefixes/suffixes) with out-of-order and duplicate words spliced in, then Finish. Checks: Add errors exactly for words not greater than the last accepted one; NumberOfWords; Lookup = (rank,true) on members and false on prefixes, extensions, one-byte mutations and random probes; via the verif hook the reachable node count equals the number of distinct residual languages (minimal DFA), per-node word counts, ascending labels, no equivalent nodes; a second build with the same Builder after Initialise gives the same automaton; dawg.New agrees, and dawg.New rejects the list with one duplicate / one transposition. Non-trivial: >= 3 words sharing a prefix and a suffix, or an accepted Add after a rejected one.",
 		Budget{Checks: 3000, Shards: 1}, Budget{Checks: 200000, Shards: 16}, genBuildCase, checkBuildCase)
 	RegisterEnum("C12_small_sets",
 		"enumeration: every subset of the 7 words of length <= 2 over {a,b} (128 sets, incl. the empty set and {\"\"}) and every 2- and 3-element subset of the 15 words of length <= 3; same checks as C12_build. Complete for that family.",
